@@ -245,6 +245,7 @@ inductive Key where
 /-- What `_convert_key` hands to `raw[...]`: an index array or one integer position. -/
 inductive Conv where
   | ids (us : List Nat)
+  | rids (is : List Int)   -- an integer index array whose entries are resolved (wrapped / bounds-checked) by NumPy at access time
   | pos (i : Int)
 
 def valToUid (v : Val) : Option Nat :=
@@ -265,13 +266,10 @@ def valToInt (v : Val) : Option Int :=
   | .num r => if r.den = 1 then some r.num else none
   | _ => none
 
-/-- `Arr._convert_key` (`storeLen` = `len(self.raw)`, needed only to resolve negative entries of a uid array) -/
-def convertKey (v : Variant) (au : List Nat) (storeLen : Nat := 0) : Key → Except Err Conv
+/-- `Arr._convert_key` -/
+def convertKey (v : Variant) (au : List Nat) : Key → Except Err Conv
   | .uids us => .ok (.ids us)
-  | .ruids is =>
-      match wrapIds storeLen is with
-      | some us => .ok (.ids us)
-      | none => .error .index
+  | .ruids is => .ok (.rids is)
   | .int i =>
       match v with
       | .asis => .ok (.pos i)                                  -- returned unchanged: indexes storage
@@ -290,10 +288,7 @@ def convertKey (v : Variant) (au : List Nat) (storeLen : Nat := 0) : Key → Exc
   | .indexArr k =>
       -- `IndexArr.uids` = its active values, used as an integer index array (negative entries wrap like any NumPy index)
       match (values au k).mapM valToInt with
-      | some is =>
-          match wrapIds storeLen is with
-          | some us => .ok (.ids us)
-          | none => .error .index
+      | some is => .ok (.rids is)
       | none => .error .index
   | .empty => .ok (.ids [])
   | .unsupported => .error .ambiguous
@@ -311,12 +306,16 @@ inductive Got where
 
 /-- `Arr.__getitem__` -/
 def getItem (v : Variant) (au : List Nat) (a : Arr) (k : Key) : Except Err Got :=
-  match convertKey v au a.raw.length k with
+  match convertKey v au k with
   | .error e => .error e
   | .ok (.ids us) =>
       match v, k with
       | .spec, .int _ => if inRange a us then .ok (.one (a.cell (us.headD 0))) else .error .index
       | _, _ => if inRange a us then .ok (.vals (gather a us)) else .error .index
+  | .ok (.rids is) =>
+      match wrapIds a.raw.length is with
+      | some us => .ok (.vals (gather a us))
+      | none => .error .index
   | .ok (.pos i) =>
       match pyPos a.raw.length i with
       | some p => .ok (.one (a.cell p))
@@ -324,7 +323,7 @@ def getItem (v : Variant) (au : List Nat) (a : Arr) (k : Key) : Except Err Got :
 
 /-- `Arr.__setitem__`: the value is cast to the array's dtype (`castRhs`) -/
 def setItem (v : Variant) (au : List Nat) (a : Arr) (k : Key) (rhs0 : Rhs) : Except Err Arr :=
-  match convertKey v au a.raw.length k with
+  match convertKey v au k with
   | .error e => .error e
   | .ok (.ids us) =>
       -- NumPy converts/broadcasts the value against the index shape first, and checks bounds while writing
@@ -334,6 +333,14 @@ def setItem (v : Variant) (au : List Nat) (a : Arr) (k : Key) (rhs0 : Rhs) : Exc
         if !rhsOk us rhs then .error .value
         else if !inRange a us then .error .index
         else .ok { a with raw := assignRaw a.raw us rhs }
+  | .ok (.rids is) =>
+      match castRhs a.kind rhs0 with
+      | none => .error .value
+      | some rhs =>
+        if !rhsOk (is.map Int.toNat) rhs then .error .value        -- shape first (only the number of entries matters)
+        else match wrapIds a.raw.length is with
+          | none => .error .index
+          | some us => .ok { a with raw := assignRaw a.raw us rhs }
   | .ok (.pos i) =>
       match pyPos a.raw.length i with
       | none => .error .index
